@@ -215,6 +215,30 @@ func (x *txnCtx) execOp(op *Op) {
 		if err != nil {
 			w.fail(violation("query-result", "QueryAt returned %v", err))
 		}
+	case "ghostonly":
+		off, ok := x.resolve(op.Target)
+		if !ok {
+			return
+		}
+		stored := false
+		if err := x.txn.QueryAt(off, func(r column.Row) error {
+			if w.ghostLive { // (checked here, after the yield in front of the read latch: a store to a missing column panics by contract)
+				r.SetInt64("ghost", int64(off)+1)
+				stored = true
+			}
+			return nil
+		}); err != nil {
+			w.fail(violation("query-result", "QueryAt returned %v", err))
+		}
+		if !stored {
+			return
+		}
+		if x.mt.ghostOnly == nil {
+			x.mt.ghostOnly = map[uint32]bool{}
+		}
+		x.mt.ghostOnly[off>>14] = true
+		x.mt.ghost = true
+		w.stats.probe("transaction-stores-into-unmodelled-column-only")
 	case "delete":
 		off, ok := x.resolve(op.Target)
 		if !ok {
